@@ -216,12 +216,13 @@ type simLock struct {
 	inst *Inst
 
 	// all below guarded by sim.mu
-	pending []*lockReq
-	parked  []*lockReq // goroutines parked after unlock or at a named point
-	writer  *lockReq
-	readers []*lockReq
-	held    map[uint64]*lockReq // goid -> request currently held by that goroutine
-	seq     int
+	pending  []*lockReq
+	parked   []*lockReq // goroutines parked after unlock or at a named point
+	writer   *lockReq
+	readers  []*lockReq
+	held     map[uint64]*lockReq // goid -> request currently held by that goroutine
+	seq      int
+	holdRole string
 }
 
 func (l *simLock) acquire(mode lockMode) {
@@ -312,6 +313,9 @@ func (l *simLock) actionsLocked() []action {
 		ok := l.writer == nil && (r.mode == modeR || len(l.readers) == 0)
 		if !ok || (gate && r.mode == modeW) {
 			continue
+		}
+		if l.holdRole != "" && r.role == l.holdRole {
+			continue // a property holds these requests back for a while (e.g. to pile up scripts)
 		}
 		acts = append(acts, action{kind: akGrant, key: r.key(), run: func() { l.grant(r) }})
 	}
